@@ -93,7 +93,7 @@ class AbstractSourceSinkGraph(nx.DiGraph):
         # multiplied with them): this internal copy stores plain Python numbers
         for attributes in [data for _, data in self.nodes(data=True)] + [data for _, _, data in self.edges(data=True)]:
             for key, value in attributes.items():
-                if isinstance(value, np.generic):
+                if isinstance(value, np.generic) or (isinstance(value, np.ndarray) and value.ndim == 0):      # (a 0-dimensional array is a scalar in disguise, and mutable: `-=` on it would change the caller's value)
                     attributes[key] = value.item()
 
         # The global source & sink always exist as nodes (also when nothing gets attached to them, so that
